@@ -261,7 +261,9 @@ def install(reg, dataclasses_=(), normalize_cls=None):
                 raise OutOfSubset(f"np.{name} keyword {list(kw)}")
             if isinstance(x1, PArr):
                 c = rterm(x2)
-                return _result(interp, x1, [ef(interp, e, c) for e in x1.elems], out, x2)
+                before = list(x1.elems)
+                els = [ef(interp, e, c) for e in before]
+                return _result(interp, x1, els, out, x2)
             if isinstance(x2, PArr):
                 raise OutOfSubset(f"np.{name}(scalar, array)")
             if contains_sym((x1, x2)):
